@@ -37,6 +37,9 @@ func (v *FetchScopeVariables) Get(s context.Scope, name string) (value.Value, er
 	switch name {
 	case BACKEND_CONN_IS_TLS:
 		var isTLS bool
+		if v.ctx.Backend == nil || v.ctx.Backend.Value == nil {
+			return &value.Boolean{Value: isTLS}, nil
+		}
 		for _, p := range v.ctx.Backend.Value.Properties {
 			if p.Key.Value != "ssl" {
 				continue
@@ -150,6 +153,9 @@ func (v *FetchScopeVariables) Get(s context.Scope, name string) (value.Value, er
 	case BERESP_BACKEND_HOST:
 		return getBackendHost(v.ctx.Backend)
 	case BERESP_BACKEND_NAME:
+		if v.ctx.Backend == nil || v.ctx.Backend.Value == nil {
+			return &value.String{Value: ""}, nil
+		}
 		return &value.String{Value: v.ctx.Backend.Value.Name.Value}, nil
 	case BERESP_BACKEND_PORT:
 		return getBackendPort(v.ctx.Backend)
